@@ -57,6 +57,8 @@ def explore(chk):
     # the WebVTT escaping itself and the reference decoder the round-trip theorem is stated with
     vtexts = sorted({l for (wn, _, caps, _, _) in jobs if wn == "webvtt" for c in caps for l in c[3] if l})
     vtexts += [textgen.adv_line(rng) + rng.choice(["", "-", "--", "-->", "&", "&a", "&amp", "<", ">"]) + textgen.adv_line(rng) for _ in range(200)]
+    # lines with more than a handful of metacharacters: every one of them is escaped, not the first few
+    vtexts += ["a<b & c<d & e<f & g<h & i<j & k<l", "<" * 12, "&" * 12, " ".join(["-->"] * 10), "<&-->" * 5, "x" + "&amp;" * 9 + "y"]
     vops = [(t, b.add("vttw.encode", core.enc(t))) for t in vtexts]
     out = b.run() if chk.driver_ok else None
     if out is not None:
